@@ -500,6 +500,11 @@ pub fn live_entries(slots: &[Slot], fat32: bool) -> Vec<Ent> {
             _ => LfnVerdict::None,
         };
         let cl = if fat32 { (rd16(raw, 20) as u32) << 16 | rd16(raw, 26) as u32 } else { rd16(raw, 26) as u32 };
+        // fatgen103: a stored first byte 0x05 stands for the character 0xE5 (which, stored as such, would mark the
+        // slot deleted); the long-name checksum above is over the bytes as stored
+        if name[0] == 0x05 {
+            name[0] = 0xE5;
+        }
         out.push(Ent {
             name,
             attr: raw[11],
